@@ -14,8 +14,19 @@
    side (C12_Spec: v_metrics / v_admission / v_conversion, three-valued); the theorems tie the two
    together for ALL byte strings.  The patch file is YAML: one of four kinds, as before.
    A conversion response followed by other data used to be accepted (found here, repaired by
-   1bbc0df): the model follows the repaired code and the full statement is a theorem. *)
+   1bbc0df): the model follows the repaired code and the full statement is a theorem.
+   EXECUTIONS RUNNING CONCURRENTLY IN DIFFERENT QUEUES (theorems C12_conc_...): a transition system of any number
+   of executions of Hook.Run whose statements (take a buffer, encode the contexts one by one, write
+   the context file, create the four output files, start the hook, read the outputs back, remove the
+   files) are interleaved arbitrarily (C12_ConcModel).  Proved for EVERY list of tasks and EVERY
+   schedule: what an execution's hook process reads is the document of its own task and a function of
+   that task alone, buffers in use are never shared, a finished execution has left no file; the
+   observation of every complete schedule satisfies the predicate of C12_ConcSpec and agrees with the
+   closed form the correspondence compares the implementation with.  PARTIAL there as for one
+   execution: own directory, existing files under the variables, names unique per execution are
+   observed, not proved (the model numbers the path of file f of execution e 5e+f: uuid oracle). *)
 From Verif Require Import Common Json JsonText JsonText_Proofs C12_Model C12_Spec C12_Corr C12_Proofs.
+From Verif Require Import C12_ConcModel C12_ConcSpec C12_ConcProofs.
 Open Scope N_scope.
 
 (* all temporary files of an execution are deleted when it ends, whatever the outcome —
@@ -218,18 +229,94 @@ Proof. exact exec_env_irrelevant. Qed.
 Print Assumptions C12_operator_env_irrelevant.
 
 (* the environment clause of the predicate holds of the model on every input *)
-Theorem C12_model_P_env : forall i o, P_env (model_obs (i, o)) = true.
+Theorem C12_model_P_env : forall i o, P_env (model_run_obs (i, o)) = true.
 Proof. exact model_P_env. Qed.
 Print Assumptions C12_model_P_env.
 
 (* ---- the whole predicate ---- *)
 
 (* the full statement: the logic half of P holds of the model on every input *)
-Definition C12_full_statement : Prop := forall i o, P_logic i (model_obs (i, o)) = true.
+Definition C12_full_statement : Prop := forall i o, P_logic i (model_run_obs (i, o)) = true.
 
 Theorem C12_model_P_logic : C12_full_statement.
 Proof. exact model_P_logic. Qed.
 Print Assumptions C12_model_P_logic.
+
+(* ---- executions running concurrently in different queues ---- *)
+
+(* for any number of executions and any interleaving of their steps (any schedule, complete or not):
+   what the hook process of execution e read under $BINDING_CONTEXT_PATH is the document of the contexts
+   of ITS task *)
+Theorem C12_conc_content_own_task : forall ts s e c,
+  e < N.of_nat (length ts) -> e_seen (w_exec (conc_run ts s) e) = Some c -> c = CDoc (task_doc (nth_task ts e)).
+Proof. exact content_own_task. Qed.
+Print Assumptions C12_conc_content_own_task.
+
+(* the content handed to an execution is a function of its own task only: other tasks beside it, another
+   number of executions, another interleaving - the same task reads the same *)
+Theorem C12_conc_content_function_of_task : forall ts ts' s s' e c c',
+  e < N.of_nat (length ts) -> e < N.of_nat (length ts') -> nth_task ts e = nth_task ts' e ->
+  e_seen (w_exec (conc_run ts s) e) = Some c -> e_seen (w_exec (conc_run ts' s') e) = Some c' -> c = c'.
+Proof. exact content_function_of_task. Qed.
+Print Assumptions C12_conc_content_function_of_task.
+
+(* from the moment its hook process runs an execution has seen that document and four empty output files;
+   before, nothing *)
+Theorem C12_conc_started_saw_own : forall ts s e, e < N.of_nat (length ts) ->
+  match e_pc (w_exec (conc_run ts s) e) with
+  | PHook | PRead | PRemove | PDone =>
+      e_seen (w_exec (conc_run ts s) e) = Some (CDoc (task_doc (nth_task ts e))) /\ e_empty (w_exec (conc_run ts s) e) = true
+  | _ => e_seen (w_exec (conc_run ts s) e) = None
+  end.
+Proof. exact started_saw_own. Qed.
+Print Assumptions C12_conc_started_saw_own.
+
+(* what this rests on: in every reachable world, two executions that are encoding or about to write hold
+   different buffers *)
+Theorem C12_conc_buffers_never_shared : forall ts s e e',
+  e < N.of_nat (length ts) -> e' < N.of_nat (length ts) -> e <> e' ->
+  uses_buf (w_exec (conc_run ts s) e) = true -> uses_buf (w_exec (conc_run ts s) e') = true ->
+  e_buf (w_exec (conc_run ts s) e) <> e_buf (w_exec (conc_run ts s) e').
+Proof. intros ts s. exact (inv_bufs ts _ (run_inv ts s)). Qed.
+Print Assumptions C12_conc_buffers_never_shared.
+
+(* an execution that has ended, whatever went on beside it: outputs read back unless its hook failed, its
+   five temp files gone *)
+Theorem C12_conc_ended_clean : forall ts s e, e < N.of_nat (length ts) -> e_pc (w_exec (conc_run ts s) e) = PDone ->
+  e_seen (w_exec (conc_run ts s) e) = Some (CDoc (task_doc (nth_task ts e)))
+  /\ e_empty (w_exec (conc_run ts s) e) = true
+  /\ e_back (w_exec (conc_run ts s) e) = (if fails_of ts e then None else Some (token e))
+  /\ files_of (conc_run ts s) e = 0.
+Proof. exact done_exec. Qed.
+Print Assumptions C12_conc_ended_clean.
+
+(* the predicate of C12_ConcSpec holds of the transition system's observation for every case and every
+   complete schedule *)
+Theorem C12_conc_model_P : forall ci s,
+  complete (ci_tasks ci) (conc_run (ci_tasks ci) s) = true ->
+  P_conc ci (lts_obs ci (conc_run (ci_tasks ci) s)) = true.
+Proof. exact lts_P_conc. Qed.
+Print Assumptions C12_conc_model_P.
+
+(* ... and that observation does not depend on the schedule: it agrees (C12_Corr.agrees_conc) with the closed
+   form C12_Corr.model_conc_obs the implementation is compared with *)
+Theorem C12_conc_obs_schedule_independent : forall ci s,
+  complete (ci_tasks ci) (conc_run (ci_tasks ci) s) = true ->
+  agrees_conc ci (lts_obs ci (conc_run (ci_tasks ci) s)) = true.
+Proof. exact lts_agrees_closed. Qed.
+Print Assumptions C12_conc_obs_schedule_independent.
+
+Theorem C12_conc_closed_form_P : forall ci, P_conc ci (model_conc_obs ci) = true.
+Proof. exact closed_P_conc. Qed.
+Print Assumptions C12_conc_closed_form_P.
+
+(* complete schedules exist for every case (one queue: the executions one after the other), and whatever is
+   appended to a complete schedule changes nothing *)
+Theorem C12_conc_complete_schedules : forall ts,
+  complete ts (conc_run ts (seq_sched ts)) = true
+  /\ forall s s', complete ts (conc_run ts s) = true -> complete ts (conc_run ts (s ++ s')) = true.
+Proof. intros ts. split; [apply seq_sched_complete | apply complete_extends]. Qed.
+Print Assumptions C12_conc_complete_schedules.
 
 (* ---- non-vacuity ---- *)
 (* the operator's environment holds METRICS_PATH twice, BINDING_CONTEXT_PATH and two unrelated variables *)
@@ -285,3 +372,35 @@ Proof.
   split; [vm_compute; discriminate|].
   repeat (split; [vm_compute; reflexivity|]). vm_compute; reflexivity.
 Qed.
+
+(* three executions - a document of three contexts, an empty one, a failing hook with two kinds of
+   contexts - under an interleaved schedule (round robin) that is complete, and under one cut short in
+   which execution 0 is between Json() and os.WriteFile while execution 1 encodes *)
+Definition ex_tasks : list ctask :=
+  [mkCT 0 1 false [(0, 7, 0, 3)]; mkCT 1 1 false []; mkCT 2 3 true [(1, 8, 4, 1); (2, 9, 0, 2)]].
+Definition ex_round_robin : list N := concat (repeat [0; 1; 2] 15).
+Example C12_conc_hyp_met :
+  complete ex_tasks (conc_run ex_tasks ex_round_robin) = true
+  /\ complete ex_tasks (conc_run ex_tasks (firstn 20 ex_round_robin)) = false
+  /\ e_seen (w_exec (conc_run ex_tasks ex_round_robin) 0) = Some (CDoc [(0, 7, 0); (0, 7, 1); (0, 7, 2)])
+  /\ e_seen (w_exec (conc_run ex_tasks ex_round_robin) 1) = Some (CDoc [])
+  /\ e_back (w_exec (conc_run ex_tasks ex_round_robin) 0) = Some (token 0)
+  /\ e_back (w_exec (conc_run ex_tasks ex_round_robin) 2) = None
+  /\ files_left ex_tasks (conc_run ex_tasks (firstn 30 ex_round_robin)) = 15
+  /\ files_left ex_tasks (conc_run ex_tasks ex_round_robin) = 0
+  (* both in the window: 0 holds the slice and has not written yet, 1 is encoding - different buffers *)
+  /\ e_pc (w_exec (conc_run ex_tasks [0; 0; 0; 0; 0; 1]) 0) = PWriteCtx
+  /\ e_pc (w_exec (conc_run ex_tasks [0; 0; 0; 0; 0; 1]) 1) = PEncode
+  /\ e_buf (w_exec (conc_run ex_tasks [0; 0; 0; 0; 0; 1]) 0) = 0 /\ e_buf (w_exec (conc_run ex_tasks [0; 0; 0; 0; 0; 1]) 1) = 1
+  (* the bytes of the first document: [\n  {\n    "binding": "t7-0",\n    "type": "Schedule"\n  },\n ... *)
+  /\ firstn 30 (render_doc (task_doc (nth_task ex_tasks 0)))
+     = [91; 10; 32; 32; 123; 10; 32; 32; 32; 32; 34; 98; 105; 110; 100; 105; 110; 103; 34; 58; 32; 34; 116; 55; 45; 48; 34; 44; 10; 32]
+  /\ render_doc (task_doc (nth_task ex_tasks 1)) = [91; 93]
+  /\ P_conc (mkCI false ex_tasks) (lts_obs (mkCI false ex_tasks) (conc_run ex_tasks ex_round_robin)) = true
+  (* the predicate is not vacuous: an execution that read the document of another task violates it *)
+  /\ P_conc (mkCI false ex_tasks)
+       (mkCO [mkCE true true true true [0; 1; 2; 3; 4] true (mkSeen true [] true None) 0 true;
+              mkCE true true true true [5; 6; 7; 8; 9] true (mkSeen true [] true None) 0 true;
+              mkCE true true true true [10; 11; 12; 13; 14] true (mkSeen true [(1, 8, 4, 1); (2, 9, 0, 2)] true None) 1 false]
+             0 [] false) = false.
+Proof. vm_compute. repeat split; reflexivity. Qed.
